@@ -162,7 +162,7 @@ func (s *vfSession) peerChaos(n int, peerRole string, nominate bool, values bool
 func vfC03PeerRun(e *vfEnv, r *vfResult, idx int) {
 	s := newVfSession(e, r, idx, "c03peer")
 	defer s.closeAll()
-	mode := s.rng.IntN(4) // 0,1: controlled full; 2: lite controlled; 3: lite controlled with priority check
+	mode := s.rng.IntN(5) // 0,1: controlled full; 2: lite controlled; 3: lite controlled with priority check; 4: controlling full
 	cfg := vfSideCfg{MaxBinding: []uint16{1000, 1000, 3, 1}[s.rng.IntN(4)], TieBreaker: 4242}
 	// with a small retry budget and a peer that stops answering, pairs reach Failed before a nomination arrives
 	muteFrom := -1
@@ -179,7 +179,14 @@ func vfC03PeerRun(e *vfEnv, r *vfResult, idx int) {
 	cfg.Renomination = values && s.rng.IntN(2) == 0
 	s.desc["mode"] = map[string]any{"lite": cfg.Lite, "check_prio": cfg.CheckPrio, "nomination_values": values}
 	nA, nP := 1+s.rng.IntN(2), 1+s.rng.IntN(3)
-	if err := s.setupAgentVsPeer(cfg, false, nA, nP, s.rng.IntN(4) != 0); err != nil {
+	agentControlling := mode == 4
+	peerRole, peerNominates := "controlling", true
+	if agentControlling {
+		// the scripted peer plays the controlled side: plain checks, late / reordered / withheld / misdirected answers
+		peerRole, peerNominates = "controlled", false
+		cfg.Renomination = s.rng.IntN(3) == 0
+	}
+	if err := s.setupAgentVsPeer(cfg, agentControlling, nA, nP, s.rng.IntN(4) != 0); err != nil {
 		r.inconclusive(1)
 		r.note("setup: %v", err)
 
@@ -188,18 +195,18 @@ func vfC03PeerRun(e *vfEnv, r *vfResult, idx int) {
 	switch muteFrom {
 	case 0:
 		s.peerMute = true
-		s.peerChaos(40+s.rng.IntN(200), "controlling", true, values)
+		s.peerChaos(40+s.rng.IntN(200), peerRole, peerNominates, values)
 	case 1: // normal, then mute (with extra ticks so that retries run out), then normal again
-		s.peerChaos(20+s.rng.IntN(60), "controlling", true, values)
+		s.peerChaos(20+s.rng.IntN(60), peerRole, peerNominates, values)
 		s.peerMute = true
 		for i := 0; i < 2+int(cfg.MaxBinding); i++ {
 			s.tickSide(s.A)
 		}
-		s.peerChaos(20+s.rng.IntN(100), "controlling", true, values)
+		s.peerChaos(20+s.rng.IntN(100), peerRole, peerNominates, values)
 		s.peerMute = false
-		s.peerChaos(20+s.rng.IntN(60), "controlling", true, values)
+		s.peerChaos(20+s.rng.IntN(60), peerRole, peerNominates, values)
 	default:
-		s.peerChaos(40+s.rng.IntN(200), "controlling", true, values)
+		s.peerChaos(40+s.rng.IntN(200), peerRole, peerNominates, values)
 	}
 	s.emittedCheck(0)
 	r.eval(1)
